@@ -8,6 +8,7 @@
 use vstd::prelude::*;
 use vstd::std_specs::convert::*;
 use std::hash::Hash;
+use std::sync::Arc;
 verus! {
 use crate::tiny_lfu::TinyLFU;
 
@@ -20,6 +21,15 @@ impl AtomicI32 {
     pub fn get_mut(&mut self) -> (r: &mut i32)
         ensures *r == old(self).v, final(self).v == *final(r)
     { &mut self.v }
+    /// a load under the entry lock (the policy asks `is_pinned` while it holds the entry) returns the stored value
+    pub fn load(&self, order: Ordering) -> (r: i32) ensures r == self.v { self.v }
+}
+/// std::sync::atomic::Ordering (interface stand-in: the ordering argument does not take part in the contracts)
+pub enum Ordering { Relaxed, Release, Acquire, AcqRel, SeqCst }
+/// std AtomicUsize, as above
+pub struct AtomicUsize { pub v: usize }
+impl AtomicUsize {
+    pub fn load(&self, order: Ordering) -> (r: usize) ensures r == self.v { self.v }
 }
 pub assume_specification<T>[ std::mem::drop ](_0: T);
 /// Option::replace / Option::take (std)
@@ -69,6 +79,9 @@ pub mod tiny_lfu {
     }
     /// environment invariant of the stored values the closure may rely on (instantiated by the user of the cache)
     pub uninterp spec fn env_ok<K, V>(e: &Entry<'_, K, V>) -> bool;
+    /// interface stand-in for tiny_lfu::LifecycleListener (the real trait additionally requires Default): the question the
+    /// eviction policy asks the owner of an entry, under the entry lock (unit c16_policy: remove_closure)
+    pub trait LifecycleListener<K, V> { fn is_pinned(&self, key: &K, value: &V) -> bool; }
     /// TinyLFU (scc map + policy): not under contract; it runs the closure on the locked entry of the key
     #[verifier::external_body]
     #[verifier::reject_recursive_types(K)]
@@ -119,6 +132,37 @@ pub proof fn axiom_pins_bounded<K, V>()
 //@ text-sub             }\n        });\n\n        drop(old_value); =>             }}\n        });\n\n        drop(old_value);
 //@ head
         proof { axiom_pins_bounded::<K, V>(); }
+//@ end
+
+
+// ---------------------------------------------------------------- what the caches answer when the policy asks "may I evict?"
+// Read-your-writes across evictions: an entry must be reported pinned exactly as long as a not-yet-durable batch has
+// written it -- whatever it holds, a value or REMEMBERED ABSENCE (a pending remove that is evicted would resurrect the
+// stored value). c16_policy proves the policy never evicts an entry whose owner answers "pinned".
+//@ impl crates/storage/src/wide_column_cache.rs :: impl<K, V> LifecycleListener<K, Entry<V>> for PinnedLifecycleListener
+//@ header-sub LifecycleListener<K, Entry<V>> => tiny_lfu::LifecycleListener<K, Entry<V>>
+//@ member is_pinned
+//@ ret r
+//@ sig
+        ensures r == (pins(Some(*value)) > 0)
+//@ end
+
+/// struct stand-in: the staging log itself (unit c09_staging) is not touched by the listener
+#[verifier::external_body]
+#[verifier::reject_recursive_types(V)]
+pub struct ConcurrentLog<V> { _p: core::marker::PhantomData<V> }
+//@ struct crates/storage/src/key_of_set_map/cache.rs :: TrackedConcurrentLog
+#[verifier::reject_recursive_types(V)]
+//@ end
+#[verifier::external_body]
+pub struct PinnedLogLifecycleListener { _p: u8 }
+//@ impl crates/storage/src/key_of_set_map/cache.rs :: impl<K: Hash + Eq, V: Eq + Hash + Clone> LifecycleListener<K, TrackedConcurrentLog<V>> for PinnedLogLifecycleListener
+//@ header-sub LifecycleListener<K, TrackedConcurrentLog<V>> => tiny_lfu::LifecycleListener<K, TrackedConcurrentLog<V>>
+//@ member is_pinned
+//@ text-sub std::sync::atomic::Ordering::SeqCst => Ordering::SeqCst
+//@ ret r
+//@ sig
+        ensures r == (value.dirty.v != 0)
 //@ end
 
 } // verus!
